@@ -376,6 +376,14 @@ def check_bool_before_int(run: Run, rule: str, scope: list[tuple[str, str]]) -> 
 _EXACT_SPECS = {"", "r", ".17g", ".17e", "!r"}
 
 
+def _exact_spec(spec: object) -> bool:
+    """a format spec that cannot lose digits: none, repr-like 17 significant digits, an integer presentation (d with optional
+    fill / width), or a pure string alignment / width (<10, >8s) - everything with a precision or a float presentation can"""
+    import re as _re
+
+    return isinstance(spec, str) and (spec in _EXACT_SPECS or bool(_re.fullmatch(r"(.?[<>^=])?[+ ]?0?\d*,?d", spec)) or bool(_re.fullmatch(r"(.?[<>^])?\d*s?", spec)))
+
+
 def check_number_spelling(run: Run, rule: str) -> None:
     """str()/repr() of a float is the shortest text that reads back as the same double; any precision-limited spelling is not"""
     run.rule(rule, "numbers are spelled by str()/repr() only: in the emitter no format(x, <spec>), f-string field with a format spec, '%'-formatting, str.format or round() is applied on the way from a value to its text (15 significant digits or 6 decimals do not reproduce a double: 0.30000000000000004 -> 0.3, 1.5e-07 -> 0.0); emit_value's number branch returns str(value)/repr(value)", 2)
@@ -388,13 +396,13 @@ def check_number_spelling(run: Run, rule: str) -> None:
             bad = None
             if isinstance(c, ast.Call) and isinstance(c.func, ast.Name) and c.func.id == "format" and len(c.args) == 2:
                 spec = run.project.try_fold(em, c.args[1])
-                if not (isinstance(spec, str) and spec in _EXACT_SPECS):
+                if not _exact_spec(spec):
                     bad = f"format(..., {ast.unparse(c.args[1])})"
             elif isinstance(c, ast.Call) and isinstance(c.func, ast.Name) and c.func.id == "round":
                 bad = "round(...)"
             elif isinstance(c, ast.FormattedValue) and c.format_spec is not None:
                 spec = "".join(v.value for v in c.format_spec.values if isinstance(v, ast.Constant)) if all(isinstance(v, ast.Constant) for v in c.format_spec.values) else None  # type: ignore[attr-defined]
-                if spec is None or spec not in _EXACT_SPECS:
+                if spec is None or not _exact_spec(spec):
                     bad = f"f-string field {{{ast.unparse(c.value)}:{spec if spec is not None else '<computed>'}}}"
             elif isinstance(c, ast.BinOp) and isinstance(c.op, ast.Mod) and ((isinstance(c.left, ast.Constant) and isinstance(c.left.value, str)) or isinstance(c.left, ast.JoinedStr)):
                 bad = "'%'-formatting"
